@@ -31,3 +31,10 @@ void h_subdecode(void) { vec_u8 *in; int verbose; tmcg_openpgp_packet_ctx_t *out
 void h_tag57(void) { vec_u8 *pkt; tmcg_openpgp_packet_ctx_t *out; tmcg_openpgp_byte_t tag; vec_mpi *qual, *xq, *v_i; vec_str *capl; vec_vec_mpi *c_ik;
   tmcg_openpgp_byte_t r = PacketDecodeTag57(pkt, tag, out, qual, xq, capl, v_i, c_ik);
   __CPROVER_assert(r != 5 || tag != 5, "REACHABILITY-CANARY (must fail): a packet body exists that is decoded"); }
+void h_lendec(void) { vec_u8 *in; _Bool nf; tmcg_openpgp_byte_t lt; uint32_t *len; _Bool *pl; size_t r = PacketLengthDecode(in, nf, lt, len, pl);
+  __CPROVER_assert(r != 5, "REACHABILITY-CANARY (must fail): a five-octet length exists"); }
+void h_bodyextract(void) { vec_u8 *in, *out; int verbose; tmcg_openpgp_byte_t r = PacketBodyExtract(in, verbose, out);
+  __CPROVER_assert(r != 11, "REACHABILITY-CANARY (must fail): a literal data packet is extracted"); }
+void h_pktdecode(void) { vec_u8 *in, *cur; int verbose; tmcg_openpgp_packet_ctx_t *out; vec_mpi *qual, *xq, *v_i; vec_str *capl; vec_vec_mpi *c_ik; notations_t *n; vec_vec_u8 *e, *r;
+  tmcg_openpgp_byte_t t = PacketDecode(in, verbose, out, cur, qual, xq, capl, v_i, c_ik, n, e, r);
+  __CPROVER_assert(t != 6, "REACHABILITY-CANARY (must fail): a public-key packet is decoded"); }
